@@ -67,7 +67,7 @@ func genCase(t *rapid.T) Case {
 		c.XRefStream = sv >= pdf.V1_5 && rapid.Bool().Draw(t, "xrefstream")
 		c.Seed = rapid.Uint64().Draw(t, "seed")
 	}
-	c.PreAlloc = rapid.IntRange(0, 6).Draw(t, "prealloc")
+	c.PreAlloc = rapid.SampledFrom([]int{0, 1, 2, 3, 6, 14, 20, 25}).Draw(t, "prealloc")
 
 	n := rapid.IntRange(1, 12).Draw(t, "nodes")
 	c.Nodes = make([]Node, n)
@@ -110,6 +110,15 @@ func genCase(t *rapid.T) Case {
 				case 1:
 					nd.CryptIdentity, nd.CryptInd = true, true
 					needCrypt, cryptInd = true, true
+				}
+			}
+			if len(nd.Filters) > 0 && !nd.CryptIdentity && rapid.IntRange(0, 2).Draw(t, "nested") == 0 {
+				// entries with nested references inside a decode-parameter
+				// dictionary; the values are drawn below, once the pool exists
+				nd.NestedAt = rapid.IntRange(0, len(nd.Filters)-1).Draw(t, "nestedat")
+				keys := rapid.SampledFrom([][]string{{"JBIG2Globals"}, {"X"}, {"JBIG2Globals", "X"}}).Draw(t, "nestedkeys")
+				for _, k := range keys {
+					nd.Nested = append(nd.Nested, gen.KV{K: gen.Hex(k), V: gen.O{T: "null"}})
 				}
 			}
 			if c.Writer == "serial" {
@@ -216,6 +225,23 @@ func genCase(t *rapid.T) Case {
 				nd.Dict = append(nd.Dict, gen.KV{K: gen.Hex(key), V: val})
 			}
 			nd.Dict = dedupKeys(nd.Dict)
+			// /JBIG2Globals refers to a stream where the graph has one
+			var streamRefs []gen.O
+			for j := range c.Nodes {
+				if c.Nodes[j].Kind == "stream" {
+					streamRefs = append(streamRefs, fix(gen.O{T: "ref", N: c.Nodes[j].Num}))
+				}
+			}
+			for j := range nd.Nested {
+				switch {
+				case string(nd.Nested[j].K) == "JBIG2Globals" && rapid.IntRange(0, 3).Draw(t, "globals-stream") > 0:
+					nd.Nested[j].V = rapid.SampledFrom(streamRefs).Draw(t, "globalsref")
+				case rapid.IntRange(0, 3).Draw(t, "nestedarr") == 0:
+					nd.Nested[j].V = gen.O{T: "arr", A: []gen.O{drawRef("nestedref"), {T: "int", I: 7}, drawRef("nestedref2")}}
+				default:
+					nd.Nested[j].V = drawRef("nestedref")
+				}
+			}
 		}
 	}
 
